@@ -185,7 +185,7 @@ def cancelled_before_start_issues_no_request(ctx):
                f'transition to a non-done state must be refused (raise) when done() (guards={g})')
 
 
-@rule('C07.e', ['C07', 'C08', 'C04', 'C03'], floor=5)
+@rule('C07.e', ['C07', 'C08', 'C04', 'C03', 'C05'], floor=5)
 def ctrl_c(ctx):
     """TransferFuture.result and TransferManager._shutdown each have a KeyboardInterrupt
     handler that cancels and re-raises; in _shutdown the executor joins are in finally and the
